@@ -18,7 +18,8 @@ pub struct Splices {
     pub loops: HashMap<usize, (String, Option<String>)>,
     /// marker id -> raw text
     pub ats: HashMap<usize, String>,
-    pub canary: bool,
+    /// loop ordinal that gets `assert(false)` at its body start (vacuity canary)
+    pub canary_loop: Option<usize>,
 }
 
 pub struct Printer<'a> {
@@ -180,7 +181,7 @@ impl<'a> Printer<'a> {
                     if !o.is_empty() {
                         self.emit(o, g.span_open(), false);
                     }
-                    if loop_n.is_some() && self.sp.canary {
+                    if loop_n.is_some() && loop_n == self.sp.canary_loop {
                         self.raw("assert(false); // VXCANARY-LOOP");
                     }
                     let rest: TokenStream = inner.into_iter().skip(skip).collect();
